@@ -169,3 +169,67 @@ func (a *Analysis) DeferredCalls(fn *ssa.Function) int {
 	}
 	return len(st.deferred)
 }
+
+// ParamMods returns the fields of the object(s) passed as parameter `param` of fn that fn may
+// write (field name -> one witnessing effect). With closed=true the effects of callbacks invoked
+// through function-valued parameters are included context-insensitively (all callees that the
+// call graph knows for the deferred call sites), which is what a loop inside fn has to assume.
+func (a *Analysis) ParamMods(fn *ssa.Function, param int, closed bool) map[string]*Effect {
+	out := map[string]*Effect{}
+	a.paramMods(fn, param, closed, map[string]bool{}, out)
+	return out
+}
+
+func (a *Analysis) paramMods(fn *ssa.Function, param int, closed bool, seen map[string]bool, out map[string]*Effect) {
+	key := fmt.Sprintf("%p:%d", fn, param)
+	if seen[key] {
+		return
+	}
+	seen[key] = true
+	st := a.fs[fn]
+	if st == nil {
+		return
+	}
+	symL := a.sym(fn, param)
+	for _, e := range st.effects {
+		if e.Kind == "mod" && e.Target == symL {
+			if _, ok := out[e.Field]; !ok {
+				out[e.Field] = e
+			}
+		}
+	}
+	if !closed {
+		return
+	}
+	for _, d := range st.deferred {
+		for j, s := range d.Args {
+			if !s.Has(symL) {
+				continue
+			}
+			for _, c := range a.siteCallees(d.Fn, d.Site) {
+				if a.analysable(c) {
+					a.paramMods(c, j, closed, seen, out)
+				}
+			}
+		}
+	}
+}
+
+// SitesCallees exposes the call-graph callees of a call site.
+func (a *Analysis) SiteCallees(fn *ssa.Function, site ssa.CallInstruction) []*ssa.Function {
+	if c := site.Common().StaticCallee(); c != nil {
+		return []*ssa.Function{c}
+	}
+	return a.siteCallees(fn, site)
+}
+
+// Overlap reports whether two values may refer to objects of the same region.
+func (a *Analysis) Overlap(x, y ssa.Value) bool {
+	sx, sy := a.ValueSet(x), a.ValueSet(y)
+	for l := range sx {
+		if sy.Has(l) {
+			return true
+		}
+	}
+	return false
+}
